@@ -101,6 +101,12 @@ func sanitizersForAttributeValue(c context) ([]string, error) {
 	ret = append(ret, sanitizeHTMLFuncName)
 	sanitizer := sc0.sanitizerName()
 	if !sc0.isURLorTrustedResourceURL() {
+		if sanitizer == "" {
+			// sanitizationContextNone: the value is only HTML-escaped. Stringify it first, so that a
+			// safehtml.HTML value is escaped like every other value: nothing may be emitted unescaped
+			// inside an attribute value.
+			sanitizer = evalArgsFuncName
+		}
 		return reverse(appendIfNotEmpty(ret, sanitizer)), nil
 	}
 	urlAttrValPrefix := c.attr.value
